@@ -312,6 +312,11 @@ class SymInt(object):
             raise ZeroDivisionError("integer division or modulo by zero")
 
     def __floordiv__(s, o):
+        if s.is_bv and isinstance(o, int) and not isinstance(o, bool) \
+                and _is_pow2(o):
+            # two's complement: floor division by 2**k is an arithmetic
+            # shift (no divider circuit for the solver)
+            return s >> (o.bit_length() - 1)
         c = s._coerce(o)
         if c is None:
             return NotImplemented
@@ -330,6 +335,11 @@ class SymInt(object):
                       else s._floordiv_int(a, b))
 
     def __mod__(s, o):
+        if s.is_bv and isinstance(o, int) and not isinstance(o, bool) \
+                and _is_pow2(o):
+            # two's complement: the floor remainder modulo 2**k is the low
+            # k bits, whatever the sign
+            return s & (o - 1)
         c = s._coerce(o)
         if c is None:
             return NotImplemented
@@ -621,7 +631,12 @@ def ite(c, a, b):
             eb = z3.Int2BV(eb, W)
         else:
             ea = z3.Int2BV(ea, W)
-    return SymInt(z3.If(ce, ea, eb))
+    k0 = k1 = 0
+    if bva and bvb:
+        ka, kb = SymInt._known(a), SymInt._known(b)
+        if ka is not None and kb is not None:
+            k0, k1 = ka[0] & kb[0], ka[1] & kb[1]
+    return SymInt(z3.If(ce, ea, eb), k0, k1)
 
 
 def same_truth(c, flag):
@@ -730,7 +745,8 @@ def _byte_item(v):
         if z3.is_bv(e):
             if e.size() == 8:
                 return e
-            _eng().side_condition(z3.ULT(e, 256), "byte value in range")
+            if v.k0 & (_M & ~0xff) != (_M & ~0xff):
+                _eng().side_condition(z3.ULT(e, 256), "byte value in range")
             return z3.simplify(z3.Extract(7, 0, e))
         _eng().side_condition(z3.And(e >= 0, e < 256), "byte value in range")
         return z3.simplify(z3.Extract(7, 0, z3.Int2BV(e, 8)))
@@ -793,7 +809,7 @@ class SymBytes(object):
         b = self.items[i]
         if isinstance(b, int):
             return b
-        return SymInt(z3.ZeroExt(W - 8, b))
+        return SymInt(z3.ZeroExt(W - 8, b), _M & ~0xff, 0)
 
     def __iter__(self):
         for k in range(len(self.items)):
